@@ -10,6 +10,7 @@ FilterException under catch must agree for one predicate.
 import itertools
 
 from ..common import import_lazy_dataset, exc_sig
+from ..vias import COPYING, through
 
 PROPERTY = 'C14'
 LEVEL = 'fault_enumeration'
@@ -19,7 +20,7 @@ RULE = ('every subset of failing positions of n <= N examples (N=5 quick, 7 '
         '(n, subset, plan, site, with_key)')
 ASSUMPTIONS = ['the raising function is deterministic in the example id']
 SHARD_TIMEOUT = {'quick': 300, 'thorough': 3000}
-LIMITS = {'quick': dict(N=5), 'thorough': dict(N=7)}
+LIMITS = {'quick': dict(N=5, NPATH=3), 'thorough': dict(N=7, NPATH=5)}
 
 
 class E1(Exception):
@@ -157,10 +158,13 @@ def consume(it):
 
 
 def check(ld, n, failing, plan, site, with_key, foreign_at, res, foreign_type=Foreign,
-          warn=False):
+          warn=False, path='direct'):
+    """`path`: how the catching dataset is consumed (vlib/vias.py) - the
+    selection of exception types is a parameter of the stage and has to hold
+    for its copies, below a lazy apply and inside the profiling wrapper too."""
     case = {'n': n, 'failing': sorted(failing), 'plan': plan, 'site': site,
             'with_key': with_key, 'foreign_at': foreign_at,
-            'foreign_type': foreign_type.__name__, 'warn': warn}
+            'foreign_type': foreign_type.__name__, 'warn': warn, 'path': path}
     exceptions, types = plans(ld)[plan]
     raiser = Raiser(failing, types, foreign_at, foreign_type)
     ds, model = build(ld, n, site, raiser)
@@ -172,19 +176,27 @@ def check(ld, n, failing, plan, site, with_key, foreign_at, res, foreign_type=Fo
         return
     nontrivial = bool(bad) and len(bad) < n
     res.case((n, tuple(sorted(failing)), plan, site, with_key, foreign_at,
-              foreign_type.__name__, warn), nontrivial)
+              foreign_type.__name__, warn, path), nontrivial)
     sig = {'site': site, 'plan': plan, 'with_key': with_key, 'warn': warn}
+    if path != 'direct':
+        sig['path'] = path
     try:
         if warn:
             c = ds.catch(warn=True) if exceptions is None else \
                 ds.catch(exceptions, warn=True)
         else:
             c = ds.catch() if exceptions is None else ds.catch(exceptions)
+        c = through(ld, c, path)
         it = iter(c.items()) if with_key else iter(c)
     except BaseException as e:
         res.violation('catch-build-raised', case, exc_sig(e), sig=sig)
         return
     got, err = consume(it)
+    if path != 'direct' and with_key and type(err).__name__ == '_ItemsNotDefined':
+        res.count('items_not_offered_on_this_path')
+        return
+    if path != 'direct':
+        res.count('catch_iterations_through_copies')
     # expected
     want = []
     want_err = False
@@ -317,13 +329,23 @@ def run_shard(spec, res):
                           foreign_type=ForeignBase)
                     check(ld, n, failing, 'tuple', site, wk, fa, res,
                           foreign_type=KeyError)
+            # the same through every consumption path that copies the stage
+            if n <= spec.get('NPATH', 3):
+                for path in COPYING:
+                    for plan in ('single', 'tuple', 'default', 'other-type-listed',
+                                 'superclass-listed'):
+                        check(ld, n, failing, plan, site, wk, None, res, path=path)
+                    for fa in range(n):
+                        if fa not in failing:
+                            check(ld, n, failing, 'tuple', site, wk, fa, res, path=path)
     res.sample({'n': 4, 'failing': [1, 2], 'plan': 'tuple', 'site': site,
                 'with_key': wk, 'foreign_at': 3,
                 'meaning': 'ids 1,2 raise E1/E2 (listed), id 3 raises Foreign'})
 
 
 def finalize(res, tier):
-    for k in ('catch_iterations', 'foreign_propagations_checked', 'equivalence_checks'):
+    for k in ('catch_iterations', 'foreign_propagations_checked', 'equivalence_checks',
+              'catch_iterations_through_copies'):
         if res.counters.get(k, 0) == 0:
             res.inconclusive_because(f'monitor {k} never evaluated')
     return {'exhaustive': True, 'max_n': LIMITS[tier]['N']}
@@ -339,4 +361,4 @@ def replay(case, res):
         case.get('foreign_type', 'Foreign')]
     check(ld, case['n'], case['failing'], case['plan'], case['site'],
           case['with_key'], case['foreign_at'], res, foreign_type=ft,
-          warn=case.get('warn', False))
+          warn=case.get('warn', False), path=case.get('path', 'direct'))
